@@ -190,7 +190,7 @@ def run(tier, seed):
         "properties and parameters, random expressions of depth <= 3, list/string index and slice with indexes around 0, +-len, i64::MIN/MAX; "
         "search: corpus of finding witnesses, every seed with/without parameters, every prefix of every seed, odd characters at every "
         "position, 40k (quick) / 200k (thorough) mutated strings, 1/3 with parameter maps, through 4 stages (parse, translate, execute on "
-        "empty, execute on populated db); nesting: 32 constructs, depth 128 (4000 for operator chains) always, then doubling + bisection. "
+        "empty, execute on populated db); nesting: 32 constructs, depth 128 (4000 for operator chains) always, then doubling up to 32768 + bisection; the old witnesses of the fixed findings (deep nests, SPARQL stall class: all ~9k generated members are run) must return. "
         "A case is non-trivial when it has >= 4 (lexer) / >= 8 (search) characters or a boundary operand; distinct = distinct (kind, input)")
     samples = []
     seen = set()
